@@ -104,7 +104,8 @@ func countPory(p *spec.Program, k *h.Case) int {
 
 func runC12(ctx *h.Ctx) int {
 	prof := profC12()
-	vals := []string{"RUBY", "SAPPHIRE", "EMERALD", "1", "2", "OTHER", "-1", "0x10"}
+	// (values are compared with case names exactly: "ruby", "Ruby " or "0X10" name no case)
+	vals := []string{"RUBY", "SAPPHIRE", "EMERALD", "1", "2", "OTHER", "-1", "0x10", "ruby", "Sapphire", "0X10", "01", "RUBY "}
 	ctx.RunCases("selection-pairs", ctx.N(6000, 300000), func(k *h.Case) {
 		g := spec.NewGen(k.R, prof)
 		prog := g.FullProgram(1 + k.R.IntN(4))
